@@ -39,3 +39,35 @@ Example C11_runs_over_the_rationals :
    forallb (fun i => forallb (fun j => seqb QcS (mmul 3%nat (lu_L 3%nat A) (lu_U 3%nat A) i j) (A i j)) [0; 1; 2]%nat) [0; 1; 2]%nat &&
    seqb QcS (lu_L 3%nat A 2%nat 1%nat) (z 3%Z))%bool = true.
 Proof. vm_compute. reflexivity. Qed.
+
+(** * Pivoting (Model/Pivot.v = unary_piv_op.h as written; compared exactly with the implementation on every run)
+    For every size, matrix and magnitude comparison: the permutation returned by the static
+    pre-pivot is a bijection of {0..n-1}; reconstruct undoes apply_pivot; and reconstruct(L,U,P)
+    returns A whenever L*U = P*A (rows gathered by P). *)
+From FastorV Require Import Model.Pivot Proofs.PivotProofs.
+Theorem C11_permutation_is_bijection :
+  forall (T : Type) (gt : T -> T -> bool) (A : nat -> nat -> T) n, bij n (pivot_perm gt A n).
+Proof. exact pivot_perm_bij. Qed.
+Print Assumptions C11_permutation_is_bijection.
+
+Theorem C11_reconstruct_undoes_pivot :
+  forall (T : Type) n (A : nat -> nat -> T) P r c, bij n P -> (r < n)%nat ->
+    reconstruct n (apply_pivot n A P) P r c = A r c.
+Proof. exact reconstruct_apply_pivot. Qed.
+
+Theorem C11_reconstruct_LUP :
+  forall (T : Type) n (A LU : nat -> nat -> T) P, bij n P ->
+    (forall i c, (i < n)%nat -> LU i c = A (P i) c) -> forall r c, (r < n)%nat -> reconstruct n LU P r c = A r c.
+Proof. exact plu_reconstruct. Qed.
+Print Assumptions C11_reconstruct_LUP.
+
+(** the matrix encoding of the permutation denotes the same permutation *)
+Theorem C11_matrix_encoding :
+  forall (T : Type) (one zero : T) (eqb1 : T -> bool) n P i,
+    eqb1 one = true -> eqb1 zero = false -> (P i < n)%nat -> find_one eqb1 n (perm_matrix one zero P i) = P i.
+Proof. exact find_one_perm_matrix. Qed.
+
+Example C11_pivot_runs :
+  let A := fun i j => nth (i * 3 + j)%nat [1; 5; 2;  -7; 0; 3;  4; -6; 1]%Z 0%Z in
+  map (pivot_perm (fun a b => (Z.abs b <? Z.abs a)%Z) A 3%nat) [0; 1; 2]%nat = [1; 2; 0]%nat.
+Proof. vm_compute. reflexivity. Qed.
